@@ -621,7 +621,8 @@ def register(reg):
             t = typ(e.t)
             return [
                 ("every_data_event_is_yielded", ("C02",), z3.Implies(t == cid("h11.Data"), yielded)),
-                ("body_continues_only_before_end", ("C02",), z3.And(t != cid("h11.EndOfMessage"), t != cid("h11.PAUSED"))),
+                # going round again after PAUSED polls the parser for ever without reading (C15: never hangs)
+                ("body_continues_only_before_end", ("C02", "C15"), z3.And(t != cid("h11.EndOfMessage"), t != cid("h11.PAUSED"))),
             ]
 
         def checks(self, c):
